@@ -109,7 +109,7 @@ def handleTaintOp (j : Json) : OpOut :=
       let oT : String := getD obs "time" "?"
       let m : String := match escTaint? node with
         | none => "none"
-        | some t => match parseInt64 t.value with
+        | some t => match parseTaintTime t.value with
           | none => "err"
           | some v => toString v
       let ageD : List String := match taintStamp? node with
